@@ -94,10 +94,28 @@ CLAIMS = {
   design="3/C11"),
 }
 
+# additions made while hardening the packs (second session): rules re-used from neighbouring packs, new rules, thorough-tier witnesses
+EXTRA = {
+ "C01": " Also re-uses C02's KEYS rule (strictly increasing keys, so that no pair is collapsed before the signature is checked). Deserialize: every result that can be Ok is from_str's own result up to error conversion.",
+ "C03": " INV-PK additionally rests on C01's rule that CombinedKey::enr_to_public falls back to the ed25519 entry. Slice -> GenericArray conversions are panic sources; slices of hex strings of statically known length are discharged by a sub-string algebra; split_at / p[n..] after Header::decode(p) == Ok(h) by the header guard.",
+ "C04": " Re-uses C02 KEYS, C09 BUILD/SIZED (whatever is returned fits the decoder's limit), C10 IDD/UNCOMP/FROM/DIGEST (the node id reported equals that of an independent parse) and the C13 cursor rules (through C12); the JSON string must be deserialised into an owned string.",
+ "C05": " build() is analysed with its helpers spliced in (primitive steps: validator loop, content inserts, rlp_content(), sign_v4), a single-pass Builder::rlp_content is accepted through a length-mirror rule (every emission matched with its length()/len() term); re-uses C09 BUILD (size slack) and C10 UNCOMP/FROM/DIGEST. Thorough tier adds compile-fail witnesses W1-W4 (private fields, no &mut to record state, no public constructor, private helpers).",
+ "C07": " Every successful exit of a core mutator passes through exactly one commit of the re-signed copy (a success that committed nothing is reported).",
+ "C08": " Re-uses C05 TS/WRAP/BUILD (every commit and build stores the signer's public key last, validated first). Setters with an address-family parameter are partially evaluated per variant (kernel.assume), so a single store after the match is the same as one per arm.",
+ "C11": " Re-uses C01 NOLAUNDER (no back-end normalises or re-parses signatures). decode_public must be the library parser's result up to error conversion (result_passthrough).",
+ "C12": " Re-uses the C13 rules as CURSOR (decode leaves exactly the unread suffix, which from_str's trailing-data check relies on). The JSON string must be deserialised into an owned (or Cow) string. The base64 input may be alloy_rlp::encode(self) or a fresh buffer filled only by self.encode().",
+ "C14": " Re-uses C07 ONCE (a setter that reports success performed exactly one committed update). Reachability flags are decided by a truth table over the presence of the two socket getters (paths contradicting each combination are cut, every reachable return evaluated).",
+ "C15": " Because == ignores the content, coherence with pairs and encoding rests on the always-signed invariant: re-uses C05 TS/WRAP/VALID/INV-RLP, C06 ATOMIC, C09 BUILD and C10 IDD.",
+ "C16": " Thorough tier adds compile-fail witness W5 (no public NodeId field).",
+ "C17": " Every non-Ok result of an import is the library parser's own failure (derived from it or control-dependent on its Err; a length-only pre-check is subsumed), so no valid secret is refused. Thorough tier adds compile-fail witness W6 (CombinedKey has no Clone/Copy/serialisation).",
+}
+
 checks = []
 for p in props:
     c = CLAIMS.get(p["id"])
     if not c: continue
+    c = dict(c)
+    c["text"] = c["text"] + EXTRA.get(p["id"], "")
     checks.append({
         "property_id": p["id"],
         "quick_cmd": "python3 analysis/check.py %s --tier quick" % p["id"],
@@ -121,7 +139,7 @@ m = {
   {"name": "selftest", "path": "selftest/", "serves_properties": [], "kind_free_text": "mutant / benign patch corpus that tests the checker both ways (not a property check)"},
  ],
  "checks": checks,
- "notes": "Static analysis only. Every check re-extracts MIR facts from /repo's working tree (4 feature configs quick, all 16 thorough). Genuine defects found and repaired are listed in known_findings.json (fix: commits in /repo).",
+ "notes": "Static analysis only. Every check re-extracts MIR facts from /repo's working tree (4 feature configs quick, all 16 thorough; the thorough tier of C05/C16/C17 also compiles the compile_fail witness crate against /repo). Before any rule runs the facts are normalised (helper inlining, iterator-adaptor desugaring, jump threading: DESIGN.md 9.1) so that verdicts do not depend on how the code is cut into helpers. Genuine defects found and repaired are listed in known_findings.json (fix: commits in /repo).",
  "not_applicable": na,
 }
 json.dump(m, open(os.path.join(VERIF, "MANIFEST.json"), "w"), indent=1)
